@@ -344,7 +344,8 @@ Record chain_inv (U : list key) (cap : key -> Z) (ch : chain) : Prop := {
   ci_1 : forall a, a ∈ vkeys (ch_prev ch) ->
            a ∈ vkeys (ch_cur ch) \/ (0 < pgh ch a /\ ch_height ch - 1 <= pgh ch a);
   ci_2 : forall a, a ∈ vkeys (ch_cur ch) ->
-           a ∈ vkeys (ch_next ch) \/ (0 < pgh ch a /\ ch_height ch <= pgh ch a) }.
+           a ∈ vkeys (ch_next ch) \/ (0 < pgh ch a /\ ch_height ch <= pgh ch a);
+  ci_pg : forall a, pgh ch a <= ch_height ch }.
 
 Definition genesis_ok (U : list key) (cap : key -> Z) (g : vset) : Prop := set_ok U cap g.
 
@@ -402,10 +403,11 @@ Proof.
   pose proof (ci_h _ _ _ Hinv) as Hh0.
   destruct ((1 <? h) || e_byz e) eqn:Hon.
   2:{ rewrite finish_off by done. simpl. eexists. split; [done|].
-      destruct Hinv as [? ? ? Hnext H1 H2]. constructor; simpl; try done; try lia.
+      destruct Hinv as [? ? ? Hnext H1 H2 H3]. constructor; simpl; try done; try lia.
       - by destruct Hnext.
       - intros a Ha. unfold pgh in *. simpl. destruct (H2 a Ha) as [?|[? ?]]; [by left|right]. subst h. lia.
-      - intros a Ha. by left. }
+      - intros a Ha. by left.
+      - intros a. unfold pgh in *. simpl. specialize (H3 a). subst h. lia. }
   set (cands := e_cands e). set (el := e_el e). set (la := vkeys (ch_prev ch)). set (pg := ch_purge ch).
   set (nt := non_top cands el). set (pa := purged_addrs h nt pg la).
   set (minp := min_power (e_opts e)).
@@ -522,6 +524,9 @@ Proof.
     destruct (apply_removed _ _ _ Ha Hout) as (p & Hin & Hp).
     apply Hups in Hin as [(c' & Hc' & -> & ->)|[_ Hpa]]; [destruct (Helpos c' Hc'); lia|].
     rewrite decide_True by done. subst h. lia.
+  - intros a. unfold pgh. simpl. rewrite finish_on by done. simpl. fold nt pa.
+    rewrite purge_height_foldr. pose proof (ci_pg _ _ _ Hinv a) as Hle. unfold pgh in Hle. fold pg in Hle.
+    destruct (decide (a ∈ pa)); subst h; lia.
 Qed.
 
 Lemma run_ok U cap es : forall ch, cap_ok U cap -> chain_inv U cap ch -> Forall (env_ok U cap) es ->
@@ -553,10 +558,320 @@ Proof.
     + simpl. rewrite Hs. eapply IH; eauto.
 Qed.
 
-Lemma after_window h bvd frozen minp top cands c : bvd < h -> NoDup cands ->
+Lemma no_frozen_elected h bvd frozen minp top cands c : NoDup cands ->
   c ∈ elect minp top (malicious_set h bvd frozen) cands -> c_addr c ∉ frozen.
 Proof.
-  intros Hh Hnd Hc. unfold malicious_set in Hc.
-  destruct (h <=? bvd) eqn:E; [apply Z.leb_le in E; lia|].
+  intros Hnd Hc. unfold malicious_set in Hc.
   exact (proj2 (ve_elig _ _ _ _ _ (elect_valid minp top frozen cands Hnd) c Hc)).
 Qed.
+
+(* ---------- records: "address = address of the key" is an invariant of the record table ---------- *)
+Definition table_ok (t : list cand) : Prop := NoDup (map c_addr t) /\ well_keyed t.
+
+Lemma upd_rec_addr a f t : map c_addr (upd_rec a f t) = map c_addr t.
+Proof. unfold upd_rec. rewrite map_map. apply map_ext. intros c. by destruct (N.eqb (c_addr c) a). Qed.
+
+Lemma upd_rec_keyed a f t : well_keyed t -> well_keyed (upd_rec a f t).
+Proof.
+  intros H c Hc. unfold upd_rec in Hc. apply elem_of_map_iff in Hc as (d & -> & Hd).
+  destruct (N.eqb (c_addr d) a); simpl; by apply H.
+Qed.
+
+Lemma has_rec_false a t : has_rec a t = false -> a ∉ map c_addr t.
+Proof.
+  intros H Hin. apply elem_of_map_iff in Hin as (c & -> & Hc).
+  assert (has_rec (c_addr c) t = true); [|congruence].
+  apply existsb_exists. exists c. split; [by apply elem_of_list_In|apply N.eqb_refl].
+Qed.
+
+Lemma rec_step_ok t o : table_ok t -> table_ok (rec_step t o).
+Proof.
+  intros [Hnd Hk]. destruct o as [a pk amt|a amt|a st|a]; simpl.
+  - destruct (N.eqb a pk) eqn:E; simpl; [|done]. apply N.eqb_eq in E. subst pk.
+    destruct (has_rec a t) eqn:Hh.
+    + split; [by rewrite upd_rec_addr|by apply upd_rec_keyed].
+    + split.
+      * rewrite map_app. apply NoDup_app. split; [done|]. split; [|simpl; apply NoDup_singleton].
+        intros x Hx Hx2. simpl in Hx2. apply elem_of_list_singleton in Hx2. subst x. by apply (has_rec_false _ _ Hh).
+      * intros c Hc. apply elem_of_app in Hc as [Hc|Hc]; [by apply Hk|].
+        apply elem_of_list_singleton in Hc. by subst c.
+  - split; [by rewrite upd_rec_addr|by apply upd_rec_keyed].
+  - split; [by rewrite upd_rec_addr|by apply upd_rec_keyed].
+  - split; [by apply NoDup_map_filter|]. intros c Hc. apply filter_In_elem in Hc as [Hc _]. by apply Hk.
+Qed.
+
+Lemma rec_run_ok ops : forall t, table_ok t -> table_ok (rec_run t ops).
+Proof.
+  unfold rec_run. induction ops as [|o ops IH]; simpl; intros t Ht; [done|]. apply IH. by apply rec_step_ok.
+Qed.
+
+(* a history of blocks: the record operations executed in the block (transactions, then the
+   EndBlock deletions) and what the election of that block is given besides the table *)
+Record blk := mkblk { bk_ops : list recop; bk_opts : opts; bk_mal : list key; bk_byz : bool; bk_el : list cand }.
+
+(* the candidate table of a block is the table left by the previous block *)
+Fixpoint envs_of (t : list cand) (bs : list blk) : list env :=
+  match bs with
+  | [] => []
+  | b :: r => mke t (bk_opts b) (bk_mal b) (bk_byz b) (bk_el b) :: envs_of (rec_run t (bk_ops b)) r
+  end.
+
+(* what is still assumed of a block once the keys are an invariant *)
+Record env_rest (U : list key) (cap : key -> Z) (e : env) : Prop := {
+  er_min : 1 <= min_power (e_opts e);
+  er_top : 1 <= o_top (e_opts e);
+  er_some : exists c, c ∈ e_cands e /\ eligible (min_power (e_opts e)) (e_mal e) c;
+  er_valid : valid_election (min_power (e_opts e)) (o_top (e_opts e)) (e_mal e) (e_cands e) (e_el e);
+  er_cap : forall c, c ∈ e_cands e -> c_pk c ∈ U /\ c_power c <= cap (c_pk c) }.
+
+Lemma envs_of_ok U cap bs : forall t, table_ok t -> Forall (env_rest U cap) (envs_of t bs) ->
+  Forall (env_ok U cap) (envs_of t bs).
+Proof.
+  induction bs as [|b bs IH]; simpl; intros t Ht Hr; [constructor|].
+  apply Forall_cons in Hr as [Hr Hrs]. apply Forall_cons. split.
+  - destruct Ht as [Hnd Hk]. destruct Hr. by constructor.
+  - apply IH; [by apply rec_run_ok|done].
+Qed.
+
+Lemma accepted_reachable U cap g t0 bs : cap_ok U cap -> genesis_ok U cap g -> table_ok t0 ->
+  Forall (env_rest U cap) (envs_of t0 bs) -> is_Some (chain_run (chain_init g) (envs_of t0 bs)).
+Proof. intros Hcap Hg Ht Hr. apply (accepted U cap); [done|done|]. by apply envs_of_ok. Qed.
+
+(* ---------- convergence ---------- *)
+Lemma elem_apply1 s u k p : (k, p) ∈ apply1 s u <-> ((k, p) ∈ s /\ k <> u.1) \/ ((k, p) = u /\ 0 < p).
+Proof.
+  unfold apply1.
+  assert (Hf : (k, p) ∈ List.filter (fun x : upd => negb (N.eqb x.1 u.1)) s <-> (k, p) ∈ s /\ k <> u.1).
+  { rewrite filter_In_elem. simpl. rewrite negb_true_iff, N.eqb_neq. tauto. }
+  destruct (0 <? u.2) eqn:Hp.
+  - apply Z.ltb_lt in Hp. rewrite elem_of_app, Hf, elem_of_list_singleton. split; [|intros [?|[? ?]]; [by left|by right]].
+    intros [?|Heq]; [by left|right]. subst u. simpl in Hp. done.
+  - apply Z.ltb_ge in Hp. rewrite Hf. split; [by left|]. intros [?|[<- ?]]; [done|simpl in *; lia].
+Qed.
+
+Lemma apply_spec ups : forall s k p, NoDup (map fst ups) ->
+  (k, p) ∈ apply_updates s ups <-> ((k, p) ∈ ups /\ 0 < p) \/ ((k, p) ∈ s /\ k ∉ map fst ups).
+Proof.
+  unfold apply_updates. induction ups as [|u ups IH]; simpl; intros s k p Hnd.
+  - split; [intros ?; right; split; [done|apply not_elem_of_nil]|intros [[H _]|[? _]]; [by apply elem_of_nil in H|done]].
+  - apply NoDup_cons in Hnd as [Hu Hnd]. rewrite (IH _ _ _ Hnd), elem_apply1. rewrite !elem_of_cons. split.
+    + intros [[? ?]|[[[? ?]|[-> ?]] Hn]].
+      * left. split; [by right|done].
+      * right. split; [done|]. intros [?|?]; done.
+      * left. split; [by left|done].
+    + intros [[[Heq|?] ?]|[? Hn]].
+      * subst u. right. split; [right; done|]. exact Hu.
+      * left. done.
+      * right. split; [left; split; [done|]; intros ->; apply Hn; by left|]. intros ?. apply Hn. by right.
+Qed.
+
+Lemma step_shape ch e ch' : chain_step ch e = Some ch' ->
+  ch' = mkch (ch_cur ch) (ch_next ch) (apply_updates (ch_next ch) (chain_updates ch e).1)
+             (chain_updates ch e).2 (ch_height ch + 1).
+Proof. unfold chain_step. destruct (acceptb _ _); [by intros [= <-]|done]. Qed.
+
+(* the update list of one block under env_ok *)
+Lemma ups_spec U cap e h la pg : env_ok U cap e -> (1 <? h) || e_byz e = true -> NoDup la ->
+  let pa := purged_addrs h (non_top (e_cands e) (e_el e)) pg la in
+  let ups := (finish h (e_byz e) (e_cands e) (e_el e) la pg).1 in
+  (forall k p, (k, p) ∈ ups <-> (exists c, c ∈ e_el e /\ k = c_pk c /\ p = c_power c) \/ (p = 0 /\ k ∈ pa)) /\
+  (forall a c, a ∈ pa -> c ∈ e_el e -> c_pk c <> a) /\
+  NoDup (map fst ups).
+Proof.
+  intros He Hon Hla pa ups.
+  set (cands := e_cands e) in *. set (el := e_el e) in *. set (nt := non_top cands el) in *.
+  pose proof (eo_valid _ _ _ He) as Hv. fold cands el in Hv.
+  pose proof (eo_keyed _ _ _ He) as Hkeyed. fold cands in Hkeyed.
+  assert (Hndaddr : NoDup (map c_addr cands)) by apply He.
+  assert (Hndpk : NoDup (map c_pk cands)).
+  { erewrite map_ext_in; [exact Hndaddr|]. intros c Hc. symmetry. apply Hkeyed. by apply elem_of_list_In. }
+  assert (Hpk : forall a, a ∈ pa -> default 0%N (assoc a nt) = a).
+  { intros a Ha. exact (proj1 (purged_key _ _ _ _ _ _ Hkeyed Ha)). }
+  assert (Hups : forall k p, (k, p) ∈ ups <->
+     (exists c, c ∈ el /\ k = c_pk c /\ p = c_power c) \/ (p = 0 /\ k ∈ pa)).
+  { intros k p. unfold ups. rewrite (ups_elem _ _ _ _ _ _ _ _ Hon). fold nt pa. split.
+    - intros [?|(-> & a & Ha & ->)]; [by left|right]. split; [done|]. by rewrite (Hpk a Ha).
+    - intros [?|(-> & Ha)]; [by left|right]. split; [done|]. exists k. split; [done|]. by rewrite (Hpk k Ha). }
+  assert (Hpa_notel : forall a c, a ∈ pa -> c ∈ el -> c_pk c <> a).
+  { intros a c Ha Hc Heq. destruct (purged_key _ _ _ _ _ _ Hkeyed Ha) as [_ (d & Hd & Hda & Hne)].
+    assert (Hcc : c ∈ cands) by (by eapply ve_sub).
+    assert (c = d).
+    { apply (fmap_inj_on c_addr cands); try done. rewrite Hda, <- Heq. by apply Hkeyed. }
+    subst d. rewrite inel_true in Hne; done. }
+  split; [done|]. split; [done|].
+  unfold ups. rewrite (finish_perm _ _ _ _ _ _ Hon). fold nt pa. rewrite map_app. apply NoDup_app. split; [|split].
+  - unfold pos_updates. rewrite map_map. simpl. apply (NoDup_map_sub c_pk el cands); [apply Hv| |done].
+    intros c Hc. by eapply ve_sub.
+  - intros k Hk Hk2. unfold pos_updates in Hk. rewrite map_map in Hk. simpl in Hk.
+    apply elem_of_map_iff in Hk as (c & -> & Hc).
+    unfold purge_updates in Hk2. rewrite map_map in Hk2. simpl in Hk2.
+    apply elem_of_map_iff in Hk2 as (a & Heq & Ha).
+    rewrite (Hpk a Ha) in Heq. by apply (Hpa_notel a c).
+  - unfold purge_updates. rewrite map_map. simpl.
+    erewrite map_ext_in; [rewrite map_id|].
+    + unfold pa, purged_addrs. by apply filter_NoDup.
+    + intros a Ha. apply elem_of_list_In in Ha. by apply Hpk.
+Qed.
+
+Definition chain_pa (ch : chain) (e : env) : list key :=
+  purged_addrs (ch_height ch + 1) (non_top (e_cands e) (e_el e)) (ch_purge ch) (vkeys (ch_prev ch)).
+
+Lemma step_facts U cap ch e ch' : chain_inv U cap ch -> env_ok U cap e -> 1 <= ch_height ch ->
+  chain_step ch e = Some ch' ->
+  ch_prev ch' = ch_cur ch /\ ch_cur ch' = ch_next ch /\ ch_height ch' = ch_height ch + 1 /\
+  (forall a, pgh ch' a = if decide (a ∈ chain_pa ch e) then ch_height ch + 1 else pgh ch a) /\
+  (forall k p, (k, p) ∈ ch_next ch' <->
+     (k, p) ∈ pos_updates (e_el e) \/
+     ((k, p) ∈ ch_next ch /\ k ∉ map c_pk (e_el e) /\ k ∉ chain_pa ch e)).
+Proof.
+  intros Hinv He Hh Hs. apply step_shape in Hs. subst ch'. simpl.
+  assert (Hon : (1 <? ch_height ch + 1) || e_byz e = true).
+  { apply orb_true_iff. left. apply Z.ltb_lt. lia. }
+  destruct (ups_spec U cap e (ch_height ch + 1) (vkeys (ch_prev ch)) (ch_purge ch) He Hon (ci_prev _ _ _ Hinv))
+    as (Hups & Hnotel & Hnd).
+  fold (chain_pa ch e) in Hups, Hnotel.
+  assert (Help : forall c, c ∈ e_el e -> 1 <= c_power c).
+  { intros c Hc. destruct (ve_elig _ _ _ _ _ (eo_valid _ _ _ He) c Hc). pose proof (eo_min _ _ _ He). lia. }
+  split; [done|]. split; [done|]. split; [done|]. split.
+  - intros a. unfold pgh, chain_updates. simpl. rewrite finish_on by done. simpl. by rewrite purge_height_foldr.
+  - intros k p. unfold chain_updates. rewrite (apply_spec _ _ _ _ Hnd). split.
+    + intros [[Hin Hp]|[Hin Hn]].
+      * left. apply Hups in Hin as [(c & Hc & -> & ->)|[-> _]]; [|lia].
+        apply elem_of_map_iff. by exists c.
+      * right. split; [done|]. split.
+        -- intros Hk. apply Hn. apply elem_of_map_iff in Hk as (c & -> & Hc).
+           apply elem_of_map_iff. exists (c_pk c, c_power c). split; [done|]. apply Hups. left. eauto.
+        -- intros Hk. apply Hn. apply elem_of_map_iff. exists (k, 0). split; [done|]. apply Hups. right. done.
+    + intros [Hin|(Hin & HnE & Hnpa)].
+      * apply elem_of_map_iff in Hin as (c & [= -> ->] & Hc). left. split; [|specialize (Help c Hc); lia].
+        apply Hups. left. eauto.
+      * right. split; [done|]. intros Hk. apply elem_of_map_iff in Hk as ([k' p'] & Hkk & Hin'). simpl in Hkk. subst k'.
+        apply Hups in Hin' as [(c & Hc & -> & ->)|[-> Hpa]]; [|done].
+        apply HnE. apply elem_of_map_iff. by exists c.
+Qed.
+
+Lemma step_inv U cap ch e ch' : cap_ok U cap -> chain_inv U cap ch -> env_ok U cap e ->
+  chain_step ch e = Some ch' -> chain_inv U cap ch'.
+Proof.
+  intros Hcap Hinv He Hs. destruct (step_ok U cap ch e Hcap Hinv He) as (c & Hc & Hi).
+  rewrite Hs in Hc. by injection Hc as ->.
+Qed.
+
+Lemma assoc_non_top_some cands el c : c ∈ cands -> inel c el = false ->
+  is_Some (assoc (c_addr c) (non_top cands el)).
+Proof.
+  unfold non_top. induction cands as [|d cands IH]; intros Hc Hn; [by apply elem_of_nil in Hc|].
+  simpl. destruct (inel d el) eqn:Hd; simpl.
+  - apply elem_of_cons in Hc as [->|Hc]; [congruence|by apply IH].
+  - destruct (N.eqb (c_addr c) (c_addr d)) eqn:E; [by eexists|].
+    apply elem_of_cons in Hc as [->|Hc]; [by rewrite N.eqb_refl in E|by apply IH].
+Qed.
+
+Lemma in_pos_key el k p : (k, p) ∈ pos_updates el -> k ∈ map c_pk el.
+Proof. intros H. apply elem_of_map_iff in H as (c & [= -> ->] & Hc). apply elem_of_map_iff. by exists c. Qed.
+
+(* three blocks of unchanged input: the set that results is exactly the election, provided every
+   member of the pending set still has a validator record *)
+Lemma conv3 U cap ch0 e ch3 : cap_ok U cap -> chain_inv U cap ch0 -> env_ok U cap e ->
+  1 <= ch_height ch0 ->
+  (forall a, a ∈ vkeys (ch_next ch0) -> a ∈ map c_addr (e_cands e)) ->
+  chain_run ch0 [e; e; e] = Some ch3 ->
+  forall k p, (k, p) ∈ ch_next ch3 <-> (k, p) ∈ pos_updates (e_el e).
+Proof.
+  intros Hcap Hinv0 He Hh Hrec Hrun. simpl in Hrun.
+  destruct (chain_step ch0 e) as [ch1|] eqn:Hs1; [|done].
+  destruct (chain_step ch1 e) as [ch2|] eqn:Hs2; [|done].
+  destruct (chain_step ch2 e) as [ch3'|] eqn:Hs3; [|done]. injection Hrun as ->.
+  pose proof (step_inv _ _ _ _ _ Hcap Hinv0 He Hs1) as Hinv1.
+  pose proof (step_inv _ _ _ _ _ Hcap Hinv1 He Hs2) as Hinv2.
+  destruct (step_facts _ _ _ _ _ Hinv0 He Hh Hs1) as (Hp1 & Hc1 & Hh1 & Hpg1 & Hn1).
+  assert (Hh1' : 1 <= ch_height ch1) by lia.
+  destruct (step_facts _ _ _ _ _ Hinv1 He Hh1' Hs2) as (Hp2 & Hc2 & Hh2 & Hpg2 & Hn2).
+  assert (Hh2' : 1 <= ch_height ch2) by lia.
+  destruct (step_facts _ _ _ _ _ Hinv2 He Hh2' Hs3) as (Hp3 & Hc3 & Hh3 & Hpg3 & Hn3).
+  intros k p. split; [|intros H; apply Hn3; by left].
+  intros H3. apply Hn3 in H3 as [?|(H2 & HnE & Hnpa2)]; [done|]. exfalso.
+  apply Hn2 in H2 as [H2|(H1 & _ & Hnpa1)]; [by apply HnE, (in_pos_key _ _ p)|].
+  apply Hn1 in H1 as [H1|(H0 & _ & Hnpa0)]; [by apply HnE, (in_pos_key _ _ p)|].
+  assert (Hk0 : k ∈ vkeys (ch_next ch0)) by (apply elem_of_map_iff; by exists (k, p)).
+  (* k signs block ch_height ch0 + 3 and has a record that is not elected *)
+  apply Hnpa2. unfold chain_pa. apply purged_addr_spec. split; [by rewrite Hp2, Hc1|].
+  destruct (proj1 (elem_of_map_iff _ _ _) (Hrec k Hk0)) as (c & -> & Hc).
+  pose proof (eo_keyed _ _ _ He c Hc) as Hkey.
+  assert (Hnel : inel c (e_el e) = false).
+  { destruct (inel c (e_el e)) eqn:Hi; [|done]. exfalso.
+    apply existsb_exists in Hi as (d & Hd & Hda). apply N.eqb_eq in Hda. apply elem_of_list_In in Hd.
+    assert (d = c).
+    { apply (fmap_inj_on c_addr (e_cands e)); [apply He|by eapply ve_sub, Hd; apply He|done|done]. }
+    subst d. apply HnE. rewrite Hkey. apply elem_of_map_iff. by exists c. }
+  destruct (assoc_non_top_some _ _ _ Hc Hnel) as [k' Hk']. exists k'. split; [done|].
+  fold (pgh ch2 (c_addr c)). rewrite Hpg2, decide_False by done. rewrite Hpg1, decide_False by done.
+  pose proof (ci_pg _ _ _ Hinv0 (c_addr c)) as Hle.
+  unfold purge_guard. apply andb_false_iff. right. apply Z.leb_gt. lia.
+Qed.
+
+(* once it is the election it stays the election while the input does not change *)
+Lemma conv_stay U cap ch e ch' : chain_inv U cap ch -> env_ok U cap e -> 1 <= ch_height ch ->
+  (forall k p, (k, p) ∈ ch_next ch <-> (k, p) ∈ pos_updates (e_el e)) ->
+  chain_step ch e = Some ch' ->
+  forall k p, (k, p) ∈ ch_next ch' <-> (k, p) ∈ pos_updates (e_el e).
+Proof.
+  intros Hinv He Hh Heq Hs.
+  destruct (step_facts _ _ _ _ _ Hinv He Hh Hs) as (_ & _ & _ & _ & Hn).
+  intros k p. rewrite Hn. split; [|by left]. intros [?|(Hin & HnE & _)]; [done|].
+  exfalso. apply HnE. apply Heq in Hin. by apply (in_pos_key _ _ p).
+Qed.
+
+Lemma run_replicate_stay U cap e n : forall ch ch', cap_ok U cap -> chain_inv U cap ch -> env_ok U cap e ->
+  1 <= ch_height ch ->
+  (forall k p, (k, p) ∈ ch_next ch <-> (k, p) ∈ pos_updates (e_el e)) ->
+  chain_run ch (replicate n e) = Some ch' ->
+  forall k p, (k, p) ∈ ch_next ch' <-> (k, p) ∈ pos_updates (e_el e).
+Proof.
+  induction n as [|n IH]; simpl; intros ch ch' Hcap Hinv He Hh Heq Hrun; [by injection Hrun as <-|].
+  destruct (chain_step ch e) as [ch1|] eqn:Hs; [|done].
+  destruct (step_facts _ _ _ _ _ Hinv He Hh Hs) as (_ & _ & Hh1 & _ & _).
+  eapply (IH ch1); eauto.
+  - by eapply step_inv.
+  - lia.
+  - by eapply conv_stay.
+Qed.
+
+Lemma converges U cap ch e n : cap_ok U cap -> chain_inv U cap ch -> env_ok U cap e ->
+  1 <= ch_height ch ->
+  (forall a, a ∈ vkeys (ch_next ch) -> a ∈ map c_addr (e_cands e)) ->
+  exists ch', chain_run ch (replicate (3 + n) e) = Some ch' /\
+    ch_next ch' ≡ₚ pos_updates (e_el e).
+Proof.
+  intros Hcap Hinv He Hh Hrec.
+  destruct (run_ok U cap (replicate (3 + n) e) ch Hcap Hinv) as (ch' & Hrun & Hinv').
+  { apply Forall_forall. intros x Hx. apply elem_of_replicate in Hx as [-> _]. done. }
+  exists ch'. split; [done|].
+  change (replicate (3 + n) e) with ([e; e; e] ++ replicate n e) in Hrun.
+  assert (Hsplit : exists ch3, chain_run ch [e; e; e] = Some ch3 /\ chain_run ch3 (replicate n e) = Some ch').
+  { simpl in Hrun |- *.
+    destruct (chain_step ch e) as [c1|]; [|done]. destruct (chain_step c1 e) as [c2|]; [|done].
+    destruct (chain_step c2 e) as [c3|]; [|done]. eauto. }
+  destruct Hsplit as (ch3 & Hr3 & Hrn).
+  pose proof (conv3 _ _ _ _ _ Hcap Hinv He Hh Hrec Hr3) as H3.
+  destruct (run_ok U cap [e; e; e] ch Hcap Hinv) as (ch3' & Hr3' & Hinv3).
+  { repeat apply Forall_cons_2; try exact He. apply Forall_nil_2. }
+  rewrite Hr3 in Hr3'. injection Hr3' as <-.
+  assert (Hh3 : 1 <= ch_height ch3).
+  { simpl in Hr3. destruct (chain_step ch e) as [c1|] eqn:E1; [|done]. destruct (chain_step c1 e) as [c2|] eqn:E2; [|done].
+    destruct (chain_step c2 e) as [c3|] eqn:E3; [|done]. injection Hr3 as <-.
+    apply step_shape in E1, E2, E3. subst. simpl. lia. }
+  pose proof (run_replicate_stay _ _ _ _ _ _ Hcap Hinv3 He Hh3 H3 Hrn) as Hfin.
+  apply NoDup_Permutation.
+  - eapply NoDup_fmap_1. apply (ci_next _ _ _ Hinv').
+  - unfold pos_updates. eapply (NoDup_fmap_1 fst). rewrite <- list_fmap_compose.
+    apply (NoDup_map_sub c_pk (e_el e) (e_cands e)); [apply He|intros c Hc; by eapply ve_sub, Hc; apply He|].
+    erewrite map_ext_in; [apply (eo_nodup _ _ _ He)|]. intros c Hc. symmetry. apply He. by apply elem_of_list_In.
+  - intros [k p]. apply Hfin.
+Qed.
+
+Lemma converges5 U cap ch e : cap_ok U cap -> chain_inv U cap ch -> env_ok U cap e ->
+  1 <= ch_height ch ->
+  (forall a, a ∈ vkeys (ch_next ch) -> a ∈ map c_addr (e_cands e)) ->
+  exists ch', chain_run ch (replicate 5 e) = Some ch' /\ ch_next ch' ≡ₚ pos_updates (e_el e).
+Proof. exact (converges U cap ch e 2). Qed.
